@@ -170,17 +170,17 @@ func checkC04(c *Check) {
 			}
 		}
 		if dg != nil {
-			if m, ok := globalStructConsts(p, dg); ok {
-				okD = true
-				for _, v := range m {
-					if i, ok := constant.Int64Val(constant.ToInt(v)); !ok || i != 0 {
-						okD = false
-					}
-				}
-			}
+			okD = globalAllZero(p, dg)
 		}
 		c.Cond(okH && okD, "O1/cap-drop", "capset-args:"+e.Site, x.pos(e), "capset(header v3 pid 0, data all zero)",
 			"capset arguments are not the all-zero capability sets with a version-3 header for the calling process: "+e.argDesc(0)+", "+e.argDesc(1))
+		// the kernel copies as many 32-bit data structs as the header's version says (1 for version 1, 2 for
+		// versions 2 and 3), whatever the caller allocated: a shorter buffer makes it read the neighbouring variables
+		if okH && dg != nil {
+			have := p.sizes().Sizeof(dg.Type().(*types.Pointer).Elem())
+			c.Cond(have >= 24, "O1/cap-drop", "capset-data-size:"+e.Site, x.pos(e), fmt.Sprintf("the data buffer (%d bytes) covers the two structs a version-3 header announces", have),
+				fmt.Sprintf("the header announces version 3 (two data structs, 24 bytes) but %s is only %d bytes: the kernel reads the following %d bytes of unrelated memory as the sets of capabilities 32..63", dg.Name(), have, 24-have))
+		}
 		// nobody writes the two globals
 		for _, g := range []*ssa.Global{hg, dg} {
 			if g == nil {
